@@ -1,6 +1,8 @@
 import XpmVerif.Proofs.SealedInv
 import XpmVerif.Proofs.Sort
-/-! C14, part 3: identifiers only inspect reachable nodes; identifiers of sealed nodes never change. -/
+import XpmVerif.Proofs.IsDefault
+/-! C14, part 3: identifiers only inspect reachable nodes — through values *and declared defaults*
+    (`IdReach`) —; identifiers of sealed nodes never change as long as the default objects are not modified. -/
 namespace XpmVerif.Ident.Sealing
 open List
 
@@ -67,30 +69,84 @@ theorem removeMeta_congr {mt mt' : Nat → Option Bool} {v : Val} (h : ∀ m ∈
     rw [this]
   | _ => rfl
 
-theorem included_congr {mt mt' : Nat → Option Bool} {a : Arg} (h : ∀ m ∈ valRefs a.value, mt m = mt' m) :
-    included mt a = included mt' a := by
-  unfold included
-  rw [removeMeta_congr h]
+/-- `refsAll` (items of the value that the encoder can see) is contained in `valRefs`. -/
+theorem refsAll_sub_valRefs {m : Nat} {v : Val} (h : m ∈ refsAll v) : m ∈ valRefs v := by
+  induction v using Val.rec (motive_2 := fun l => ∀ ks : List (List Nat), (m ∈ refsAllL l → m ∈ valsRefs l) ∧
+      (m ∈ refsPairs noMeta ks l → m ∈ valsRefs l)) with
+  | none => simp [refsAll, refsVal] at h
+  | bool b => simp [refsAll, refsVal] at h
+  | int i => simp [refsAll, refsVal] at h
+  | float b => simp [refsAll, refsVal] at h
+  | str s => simp [refsAll, refsVal] at h
+  | enum s => simp [refsAll, refsVal] at h
+  | path s => simp [refsAll, refsVal] at h
+  | ref n => simpa [refsAll, refsVal, valRefs] using h
+  | list l ih => rw [refsAll_list] at h; simp only [valRefs]; exact (ih []).1 h
+  | dict ks vs ih => simp only [refsAll, refsVal] at h; simp only [valRefs]; exact (ih ks).2 h
+  | nil => simp [refsAllL, refsVals, refsPairs]
+  | cons v vs ih1 ih2 =>
+    rename_i ks
+    refine ⟨?_, ?_⟩
+    · intro h
+      rw [refsAllL_cons, mem_append] at h
+      simp only [valsRefs, mem_append]
+      exact h.imp ih1 (ih2 []).1
+    · intro h
+      cases ks with
+      | nil => simp [refsPairs] at h
+      | cons k ks =>
+        simp only [refsPairs, dropped_noMeta, Bool.false_eq_true, if_false, mem_append] at h
+        simp only [valsRefs, mem_append]
+        exact h.imp ih1 (ih2 ks).2
+
+theorem refsVal_sub_valRefs {mt : Nat → Option Bool} {m : Nat} {v : Val} (h : m ∈ refsVal mt v) : m ∈ valRefs v :=
+  refsAll_sub_valRefs (refsVal_sub_refsAll mt m v h)
+
+/-- the configurations of the declared default of an argument. -/
+def dfltRefs (a : Arg) : List Nat := match a.default with | some d => valRefs d | none => []
+
+theorem included_congr {ceq ceq' : Nat → Nat → Bool} {mt mt' : Nat → Option Bool} {a : Arg}
+    (h : ∀ m ∈ valRefs a.value, mt m = mt' m)
+    (hq : ∀ x ∈ dfltRefs a, ∀ y ∈ valRefs a.value, ceq x y = ceq' x y) :
+    included ceq mt a = included ceq' mt' a := by
+  have hd : defaultOut ceq mt a = defaultOut ceq' mt' a := by
+    unfold defaultOut
+    cases hdf : a.default with
+    | none => rfl
+    | some d =>
+      simp only
+      rw [isDefault_removeMeta, isDefault_removeMeta,
+        isDefault_congr_mt ceq mt mt' d a.value (fun m hm => h m (refsAll_sub_valRefs hm)),
+        isDefault_congr_ceq ceq ceq' mt' d a.value (fun x hx y hy =>
+          hq x (by simp only [dfltRefs, hdf]; exact refsAll_sub_valRefs hx) y (refsVal_sub_valRefs hy))]
+  unfold included ignoredOut metaOut
+  rw [hd]
   cases hv : a.value <;> simp only []
   rename_i n
   rw [h n (by simp [hv, valRefs])]
 
-theorem argStream_congr {cfg cfg' : Nat → List Nat} {mt mt' : Nat → Option Bool} {a : Arg}
-    (h : ∀ m ∈ valRefs a.value, cfg m = cfg' m ∧ mt m = mt' m) : argStream cfg mt a = argStream cfg' mt' a := by
+theorem argStream_congr {cfg cfg' : Nat → List Nat} {ceq ceq' : Nat → Nat → Bool} {mt mt' : Nat → Option Bool} {a : Arg}
+    (h : ∀ m ∈ valRefs a.value, cfg m = cfg' m ∧ mt m = mt' m)
+    (hq : ∀ x ∈ dfltRefs a, ∀ y ∈ valRefs a.value, ceq x y = ceq' x y) :
+    argStream cfg ceq mt a = argStream cfg' ceq' mt' a := by
   unfold argStream
-  rw [included_congr (fun m hm => (h m hm).2), encVal_congr_refs cfg cfg' mt mt' a.value h]
+  rw [included_congr (fun m hm => (h m hm).2) hq, encVal_congr_refs cfg cfg' mt mt' a.value h]
 
-/-- the stream of a node only depends on the encoding and meta flag of the configurations it references. -/
-theorem nodeStream_congr_refs {cfg cfg' : Nat → List Nat} {mt mt' : Nat → Option Bool} {self : Nat} {nd : Node}
+/-- the stream of a node only depends on the encoding and meta flag of the configurations it references, and
+    on the comparison of the configurations of its defaults with those of its values. -/
+theorem nodeStream_congr_refs {cfg cfg' : Nat → List Nat} {ceq ceq' : Nat → Nat → Bool} {mt mt' : Nat → Option Bool}
+    {self : Nat} {nd : Node}
     (ha : ∀ a ∈ nd.args, ∀ m ∈ valRefs a.value, cfg m = cfg' m ∧ mt m = mt' m)
+    (hq : ∀ a ∈ nd.args, ∀ x ∈ dfltRefs a, ∀ y ∈ valRefs a.value, ceq x y = ceq' x y)
     (ht : ∀ t, nd.task = some t → t ≠ self → cfg t = cfg' t) :
-    nodeStream cfg mt self nd = nodeStream cfg' mt' self nd := by
+    nodeStream cfg ceq mt self nd = nodeStream cfg' ceq' mt' self nd := by
   unfold nodeStream
-  have h1 : (sortBy (fun a b => bytesLe a.name b.name) nd.args).map (argStream cfg mt)
-      = (sortBy (fun a b => bytesLe a.name b.name) nd.args).map (argStream cfg' mt') := by
+  have h1 : (sortBy (fun a b => bytesLe a.name b.name) nd.args).map (argStream cfg ceq mt)
+      = (sortBy (fun a b => bytesLe a.name b.name) nd.args).map (argStream cfg' ceq' mt') := by
     apply map_congr_left
     intro a hmem
-    exact argStream_congr (ha a ((sortBy_perm _ _).mem_iff.1 hmem))
+    have hmem' := (sortBy_perm _ _).mem_iff.1 hmem
+    exact argStream_congr (ha a hmem') (hq a hmem')
   rw [h1]
   cases htk : nd.task with
   | none => rfl
@@ -99,31 +155,61 @@ theorem nodeStream_congr_refs {cfg cfg' : Nat → List Nat} {mt mt' : Nat → Op
     · simp [hne]
     · simp only [ne_eq, hne, not_false_eq_true, if_true]; rw [ht t htk hne]
 
-/-- **`rawAt` only inspects nodes reachable from `n`**. -/
+/-! ### what an identifier can depend on: the walk's edges and the declared defaults -/
+
+/-- `IdEdge g n m`: an edge of the walk, or `m` occurs in the declared default of an argument of `n`. -/
+inductive IdEdge (g : Graph) (n : Nat) : Nat → Prop
+  | edge {m : Nat} : Edge g n m → IdEdge g n m
+  | dflt {a : Arg} {m : Nat} : a ∈ (g.node n).args → m ∈ dfltRefs a → IdEdge g n m
+
+inductive IdReach (g : Graph) (n : Nat) : Nat → Prop
+  | refl : IdReach g n n
+  | step {m k : Nat} : IdReach g n m → IdEdge g m k → IdReach g n k
+
+theorem IdReach.trans {g : Graph} {a b c : Nat} (h1 : IdReach g a b) (h2 : IdReach g b c) : IdReach g a c := by
+  induction h2 with
+  | refl => exact h1
+  | step _ e ih => exact .step ih e
+
+theorem IdReach.head {g : Graph} {a b c : Nat} (e : IdEdge g a b) (h : IdReach g b c) : IdReach g a c :=
+  IdReach.trans (.step .refl e) h
+
+theorem IdReach.of_reach {g : Graph} {a b : Nat} (h : Reach g a b) : IdReach g a b := by
+  induction h with
+  | refl => exact .refl
+  | step _ e ih => exact .step ih (.edge e)
+
+/-- **`rawAt` only inspects nodes reachable from `n`** (through values, tasks and declared defaults). -/
 theorem rawAt_congr_reach {D : Type} (hc : HC D) (g g' : Graph) :
-    ∀ (fuel : Nat) (stack : List Nat) (n : Nat), (∀ m, Reach g n m → g'.node m = g.node m) →
+    ∀ (fuel : Nat) (stack : List Nat) (n : Nat), (∀ m, IdReach g n m → g'.node m = g.node m) →
       rawAt hc g' fuel stack n = rawAt hc g fuel stack n := by
   intro fuel
   induction fuel with
   | zero => intro stack n _; simp [rawAt]
   | succ fuel ih =>
     intro stack n h
+    have hcfg : ∀ m, IdEdge g n m →
+        ctxCfg (n :: stack) (fun m => hc.emb (rawAt hc g' fuel (n :: stack) m)) m
+          = ctxCfg (n :: stack) (fun m => hc.emb (rawAt hc g fuel (n :: stack) m)) m := by
+      intro m e
+      unfold ctxCfg
+      split
+      · rfl
+      · show hc.emb (rawAt hc g' fuel (n :: stack) m) = hc.emb (rawAt hc g fuel (n :: stack) m)
+        rw [ih (n :: stack) m (fun k hk => h k (IdReach.head e hk))]
     simp only [rawAt]
     rw [h n .refl]
     congr 1
     apply nodeStream_congr_refs
     · intro a ha m hm
       have e : Edge g n m := .arg ha hm
-      refine ⟨?_, ?_⟩
-      · split
-        · rfl
-        · rw [ih (n :: stack) m (fun k hk => h k (Reach.head e hk))]
-      · simp only [Graph.mt]; rw [h m (.step .refl e)]
+      refine ⟨hcfg m (.edge e), ?_⟩
+      simp only [Graph.mt]; rw [h m (.step .refl (.edge e))]
+    · intro a ha x hx y hy
+      unfold ctxEq
+      rw [hcfg x (.dflt ha hx), hcfg y (.edge (.arg ha hy))]
     · intro t ht hne
-      have e : Edge g n t := .task ht hne
-      split
-      · rfl
-      · rw [ih (n :: stack) t (fun k hk => h k (Reach.head e hk))]
+      exact hcfg t (.edge (.task ht hne))
 
 /-! ### the `ConfigWalk` only inspects reachable nodes, and only returns reachable nodes -/
 
@@ -257,7 +343,7 @@ theorem mem_collectPreTasks {g : Graph} {n p : Nat} (h : p ∈ collectPreTasks g
 
 /-- **`rawId` and `fullId` only inspect nodes reachable from `n`**. -/
 theorem rawId_congr_reach {D : Type} (hc : HC D) (g g' : Graph) (n : Nat) (hs : g'.size = g.size)
-    (h : ∀ m, Reach g n m → g'.node m = g.node m) : rawId hc g' n = rawId hc g n := by
+    (h : ∀ m, IdReach g n m → g'.node m = g.node m) : rawId hc g' n = rawId hc g n := by
   unfold rawId; rw [hs]; exact rawAt_congr_reach hc g g' _ _ n h
 
 theorem collectPreTasks_congr_reach (g g' : Graph) (n : Nat) (hs : g'.size = g.size)
@@ -272,19 +358,20 @@ theorem collectPreTasks_congr_reach (g g' : Graph) (n : Nat) (hs : g'.size = g.s
   rw [h m (reachable_sound hm)]
 
 theorem fullId_congr_reach {D : Type} (hc : HC D) (g g' : Graph) (n : Nat) (hs : g'.size = g.size)
-    (h : ∀ m, Reach g n m → g'.node m = g.node m) : fullId hc g' n = fullId hc g n := by
+    (h : ∀ m, IdReach g n m → g'.node m = g.node m) : fullId hc g' n = fullId hc g n := by
+  have h' : ∀ m, Reach g n m → g'.node m = g.node m := fun m hm => h m (.of_reach hm)
   unfold fullId
   simp only []
-  rw [rawId_congr_reach hc g g' n hs h, collectPreTasks_congr_reach g g' n hs h, h n .refl]
+  rw [rawId_congr_reach hc g g' n hs h, collectPreTasks_congr_reach g g' n hs h', h n .refl]
   have hp : (collectPreTasks g n).map (rawId hc g') = (collectPreTasks g n).map (rawId hc g) := by
     apply map_congr_left
     intro p hp
     obtain ⟨m, hm, hpm⟩ := mem_collectPreTasks hp
-    exact rawId_congr_reach hc g g' p hs (fun k hk => h k (hm.trans (Reach.head (.pre hpm) hk)))
+    exact rawId_congr_reach hc g g' p hs (fun k hk => h k ((IdReach.of_reach hm).trans (IdReach.head (.edge (.pre hpm)) hk)))
   have hi : (g.node n).initTasks.map (fun i => hc.emb (rawId hc g' i)) = (g.node n).initTasks.map (fun i => hc.emb (rawId hc g i)) := by
     apply map_congr_left
     intro i hi
-    rw [rawId_congr_reach hc g g' i hs (fun k hk => h k (Reach.head (.init hi) hk))]
+    rw [rawId_congr_reach hc g g' i hs (fun k hk => h k (IdReach.head (.edge (.init hi)) hk))]
   rw [hp, hi]
 
 /-! ### stability for sealed nodes -/
@@ -295,10 +382,38 @@ theorem reach_sealed {g : Graph} (hcl : SealedClosed g) {n m : Nat} (hn : (g.nod
   | refl => exact hn
   | step _ e ih => exact hcl _ _ ih e
 
-theorem frame_ident {D : Type} (hc : HC D) {g g' : Graph} (hcl : SealedClosed g) (hf : Frame g g') {n : Nat}
-    (hn : (g.node n).sealed = true) :
+/-- the default objects — every configuration occurring in a declared default, and everything their
+    identifiers depend on — are the same in `g'` ("class-level defaults are not modified"; they are *not* sealed
+    by `seal`, which never visits them). -/
+def DefaultsFrame (g g' : Graph) : Prop :=
+  ∀ (x : Nat) (a : Arg) (r m : Nat), a ∈ (g.node x).args → r ∈ dfltRefs a → IdReach g r m → g'.node m = g.node m
+
+/-- no declared default contains a configuration object. -/
+def NoCfgDefaults (g : Graph) : Prop := ∀ (x : Nat) (a : Arg), a ∈ (g.node x).args → dfltRefs a = []
+
+theorem DefaultsFrame.of_noCfgDefaults {g : Graph} (h : NoCfgDefaults g) (g' : Graph) : DefaultsFrame g g' := by
+  intro x a r m ha hr; rw [h x a ha] at hr; cases hr
+
+/-- what `IdReach` adds to `Reach`: a node reached through a declared default. -/
+theorem IdReach.cases_default {g : Graph} {n m : Nat} (h : IdReach g n m) :
+    Reach g n m ∨ ∃ x a r, a ∈ (g.node x).args ∧ r ∈ dfltRefs a ∧ IdReach g r m := by
+  induction h with
+  | refl => exact .inl .refl
+  | @step m k _ e ih =>
+    rcases ih with ih | ⟨x, a, r, ha, hr, hrm⟩
+    · cases e with
+      | edge e => exact .inl (.step ih e)
+      | dflt ha hk => exact .inr ⟨m, _, k, ha, hk, .refl⟩
+    · exact .inr ⟨x, a, r, ha, hr, .step hrm e⟩
+
+theorem frame_ident {D : Type} (hc : HC D) {g g' : Graph} (hcl : SealedClosed g) (hf : Frame g g')
+    (hdf : DefaultsFrame g g') {n : Nat} (hn : (g.node n).sealed = true) :
     rawId hc g' n = rawId hc g n ∧ fullId hc g' n = fullId hc g n ∧ (g'.node n).sealed = true := by
-  have h : ∀ m, Reach g n m → g'.node m = g.node m := fun m hm => hf.2 m (reach_sealed hcl hn hm)
+  have h : ∀ m, IdReach g n m → g'.node m = g.node m := by
+    intro m hm
+    rcases hm.cases_default with hm | ⟨x, a, r, ha, hr, hrm⟩
+    · exact hf.2 m (reach_sealed hcl hn hm)
+    · exact hdf x a r m ha hr hrm
   exact ⟨rawId_congr_reach hc g g' n hf.1 h, fullId_congr_reach hc g g' n hf.1 h, by rw [h n .refl]; exact hn⟩
 
 /-- the set of nodes reachable from a sealed node never changes. -/
